@@ -83,7 +83,8 @@ def cases(tier, rng):
             yield case('d2b', n_(i), places=n_(rng.randint(0, 11)), b=b)
     # operand kinds and places kinds
     odd_vals = ['z', 's:', 'b:1', 'b:0', 'n:7/2', 'n:-7/2', 'n:1/2', 'n:-1/2', s_('12'), s_(' 12 '), s_('1_0'),
-                s_('+5'), s_('-5'), s_('1.5'), s_('abc'), s_('1e2'), s_('_1'), s_('1__0'), s_('1_')] + \
+                s_('+5'), s_('-5'), s_('1.5'), s_('abc'), s_('1e2'), s_('_1'), s_('1__0'), s_('1_'),
+                s_('Infinity'), s_('-inf'), s_('inf'), s_('nan'), s_('1e400'), s_('-1e400'), s_('1e-400'), s_('0x10')] + \
                ['e:' + t for t in core.TAG_ERRS]
     odd_places = [None, 'z', 'b:1', 'b:0', 'n:5/2', 'n:-1/1', 'n:0/1', 'n:10/1', 'n:11/1', s_('4'), s_('a'), s_(''),
                   'e:na', 'e:div0']
